@@ -109,6 +109,24 @@ def c03_a(ctx):
               'batch_index, submission_index, master_seed, model_name from context / net',
               'the meta dict does not carry batch_index / master_seed / submission_index / '
               'model_name from the context', fn=load, node=md[1] if md else load.node)
+    st = [(s, t) for (s, t, k) in ctx.stores(load, "compiled_net.nodes[_]['output']")
+          if k == 'assign']
+    ok = False
+    for (s, t) in st:
+        lo = enclosing_loop(s)
+        if isinstance(lo, ast.For) and lmap is not None:
+            it = exl.term(lo.iter, cfg_of(load).by_stmt[id(lo)])
+            key = exl.term(t.value.slice)
+            v = exl.term(s.value)
+            if match(it, pattern('_d.items()')) is not None and key[0] == 'item' and \
+                    key[2] == 0 and v[0] == 'item' and v[2] == 1 and key[1] == v[1] and \
+                    any(pol and match(g, pattern('_n in compiled_net')) is not None
+                        for (g, pol, _) in ctx.guards(load, s)):
+                ok = True
+    ctx.check(ok, load, 'instruction values loaded into present nodes',
+              "for node, v in details.items(): if node in net: nodes[node]['output'] = v",
+              'the instruction values are not stored as outputs of their own nodes', fn=load,
+              node=st[0][0] if st else load.node)
     # random state node: same name on both sides (compiler name checked in C02-d)
     rl = ctx.fn('elfi.loader:RandomStateLoader.load')
     rc = ctx.fn('elfi.compiler:RandomStateCompiler.compile')
@@ -210,7 +228,9 @@ def c03_c(ctx):
     for r in ctx.stmts(oc, ast.Raise):
         gs = ctx.guards(oc, r)
         flag = [(t, pol) for (t, pol, _) in gs if contains(t, "'_stochastic'")]
-        if not flag or not all(pol for (t, pol) in flag):
+        if not flag or not all(pol and (match(t, pattern("'_stochastic' in _")) is not None or
+                                        match(t, pattern("_['_stochastic']")) is not None)
+                               for (t, pol) in flag):
             continue
         # inside: for ancestor in nx.ancestors(compiled_net, observed_name(node)): for node in
         # uses_observed
@@ -298,8 +318,14 @@ def c03_d(ctx):
                   "(edge param, parent output) collected for integer params",
                   'integer-parameter parents are not collected as (param, output) pairs', fn=run,
                   node=apps[0] if apps else run.node)
-        kw = [(s, t, k) for (s, t, k) in ctx.stores(run, 'kwargs[_]', expanded=False)
-              if k == 'assign']
+        kwname = None
+        for n in own_nodes(run.node):
+            if isinstance(n, ast.Call) and any(isinstance(a, ast.Starred) for a in n.args):
+                for k2 in n.keywords:
+                    if k2.arg is None and isinstance(k2.value, ast.Name):
+                        kwname = k2.value.id
+        kw = [(s, t, k) for (s, t, k) in ctx.stores(run, (kwname or 'kwargs') + '[_]',
+                                                    expanded=False) if k == 'assign']
         ok = False
         for (s, t, k) in kw:
             if match(ex.term(t.slice), pattern("G[_p][node]['param']")) is not None and \
@@ -361,6 +387,39 @@ def c03_e(ctx):
     sites = _output_store_sites(ctx)
     if len(sites) < 6:
         ctx.undecided('expected >= 6 output-supplying sites, found {}'.format(len(sites)))
+    # the public places where values are supplied must each still do so
+    required = [('elfi.loader:ObservedLoader.load', 'observed data'),
+                ('elfi.loader:PoolLoader.load', 'stored pool values'),
+                ('elfi.loader:AdditionalNodesLoader.load', 'batch_size / meta'),
+                ('elfi.client:BatchHandler.submit', 'overriding batch values'),
+                ('elfi.model.extensions:ModelPrior.rvs', 'the caller\'s generator'),
+                ('elfi.executor:Executor.execute', 'operation results')]
+    for (q, what) in required:
+        f = ctx.fn(q)
+        mine = [x for x in sites if x[0] is f]
+        ctx.check(bool(mine), f, 'values are supplied as node outputs',
+                  '{} stored as output of their node'.format(what),
+                  '{} no longer stores {} into the node it belongs to'.format(f.name, what),
+                  fn=f, node=mine[0][1] if mine else f.node)
+    ev = [x for x in sites if x[0].cls is not None and x[0].cls.name == 'ModelPrior'
+          and x[0].name != 'rvs']
+    ctx.check(bool(ev), 'elfi.model.extensions:ModelPrior', 'query point supplied as outputs',
+              'ModelPrior evaluation overrides parameter nodes',
+              'ModelPrior no longer overrides the parameter nodes with the query point')
+    # supplied values are the ones meant: submit / ModelPrior iterate the whole batch dict
+    sub = ctx.fn('elfi.client:BatchHandler.submit')
+    exs = ctx.ex(sub)
+    for (f, n, nd, kind) in [x for x in sites if x[0] is sub]:
+        lo = enclosing_loop(n)
+        ok = isinstance(lo, ast.For) and match(
+            exs.term(lo.iter, cfg_of(sub).by_stmt[id(lo)]), pattern('(batch or {}).items()')) \
+            is not None
+        d = const_dict(exs.term(n.args[0])) if kind == 'update' else None
+        ok = ok and d is not None and d.get('output', ('x',))[0] == 'item' and \
+            d['output'][2] == 1 and nd[2][0] == 'item' and nd[2][2] == 0
+        ctx.check(ok, sub, 'every overriding value goes to its own node',
+                  'for k, v in batch.items(): nodes[k] gets v',
+                  'the overriding batch values are not stored node by node', fn=sub, node=n)
     for (f, n, nd, kind) in sites:
         ex = ctx.ex(f)
         # nodes that are created without an operation by the compiler
@@ -598,6 +657,17 @@ def c03_h(ctx):
                   'edges copied only when the node is not stochastic',
                   'edges are copied for stochastic nodes as well (their twin must be given, not '
                   'computed)', fn=oc, node=e)
+    # the observed tuple flows from the twin into the node that uses it
+    oe = [e for e in ctx.calls(oc, name='add_edge')
+          if any(k.arg == 'param' for k in e.keywords)]
+    okdir = bool(oe) and all(
+        len(e.args) >= 2 and contains(ex.term(e.args[0]), 'cls.make_observed_copy(*_)') and
+        ex.term(e.args[1])[0] == 'elem' and
+        any(pol and contains(t, "_['_uses_observed']") for (t, pol, _) in ctx.guards(oc, e))
+        for e in oe)
+    ctx.check(okdir, oc, 'observed edge direction', 'add_edge(twin, node, param=observed)',
+              'the edge carrying the observed tuple does not run from the twin to the node '
+              'flagged _uses_observed', fn=oc, node=oe[0] if oe else oc.node)
     # _uses_observed: twin runs args_to_tuple and feeds param 'observed'
     mk = ctx.calls(oc, name='make_observed_copy')
     ok = any(len(c.args) >= 3 and match(ex.term(c.args[2]), pattern('args_to_tuple')) is not None
@@ -633,13 +703,31 @@ def c03_h(ctx):
     out = ctx.fn('elfi.compiler:OutputCompiler.compile')
     exo = ctx.ex(out)
     pairs = {}
-    for (s, t, k) in ctx.stores(out, "data[_]", expanded=False):
-        if k == 'assign':
+    for (s, t, k) in ctx.stores(out, "_[_]"):
+        if k == 'assign' and contains(exo.term(t.value), 'compiled_net.nodes(data=True)'):
             key = exo.term(t.slice)
             v = exo.term(s.value)
             m = match(v, pattern("source_net.nodes[_n]['attr_dict'][_k]"))
             if key[0] == 'const' and m is not None and m['k'][0] == 'const':
                 pairs[key[1]] = m['k'][1]
+    gok = True
+    for (s, t, k) in ctx.stores(out, "_[_]"):
+        if k == 'assign' and contains(exo.term(t.value), 'compiled_net.nodes(data=True)'):
+            v = exo.term(s.value)
+            m = match(v, pattern("source_net.nodes[_n]['attr_dict'][_k]"))
+            if m is not None and m['k'][0] == 'const':
+                want = pattern("'{}' in source_net.nodes[_n]['attr_dict']".format(m['k'][1]))
+                if not any(pol and match(g, want) is not None
+                           for (g, pol, _) in ctx.guards(out, s)):
+                    gok = False
+    ctx.check(gok, out, 'state key copied only when present', "if '_output' in state: ...",
+              'a state key is copied under a test of another (or the negated) key', fn=out,
+              node=out.node)
+    r_both = any(any(pol and g[0] == 'bool' and g[1] == 'and' and
+                     contains(g, "'_output' in _") and contains(g, "'_operation' in _")
+                     for (g, pol, _) in ctx.guards(out, r)) for r in ctx.stmts(out, ast.Raise))
+    ctx.check(r_both, out, 'ambiguous node refused', 'raise when both _output and _operation',
+              'a node with both _output and _operation is not refused', fn=out, node=out.node)
     ctx.check(pairs == {'output': '_output', 'operation': '_operation'}, out,
               'state keys map to computation keys',
               "_output -> output, _operation -> operation",
